@@ -162,6 +162,7 @@ const (
 	useCloseWrite = 1 // Write(nonce); CloseWrite; Read(reply); hold; end
 	useUnused     = 2 // no I/O at all, end immediately
 	useDuplex     = 3 // first Read (own task) and first Write race; hold; end
+	useReadOnly   = 4 // read-only client: CloseWrite is the very first operation, then Read(reply); hold; end
 )
 
 type openPlan struct {
@@ -192,6 +193,7 @@ type plan struct {
 	initial        []mutPlan
 	rounds         []roundPlan
 	fault          bool // stratum: one injected resource-manager refusal of SetProtocol
+	nullRcmgr      bool // stratum: both nodes run with network.NullResourceManager
 	faultRound     int
 	faultOnB       bool
 	faultN         int
@@ -263,7 +265,15 @@ func (t planTable) live() []protocol.ID {
 
 func drawPlan(g simrt.Gen) plan {
 	var p plan
-	p.fault = g.Chance(1, 5)
+	// stratum first: 0 fault-free with real resource managers, 1 one injected SetProtocol refusal,
+	// 2 fault-free with network.NullResourceManager on both nodes (a stream scope that accepts any number
+	// of SetProtocol calls; no scope oracles there)
+	switch g.Weighted(3, 1, 1) {
+	case 1:
+		p.fault = true
+	case 2:
+		p.nullRcmgr = true
+	}
 	hk := g.Weighted(6, 2, 1, 1)
 	p.blankA = hk == 1 || hk == 3
 	p.blankB = hk == 2 || hk == 3
@@ -308,10 +318,10 @@ func drawPlan(g simrt.Gen) plan {
 		unusedGiven := false
 		for i := 0; i < no; i++ {
 			op := openPlan{req: drawReq(g, live)}
-			op.use = g.Weighted(8, 2, 1, 2)
-			if op.use == useUnused {
+			op.use = g.Weighted(8, 2, 1, 2, 2)
+			if op.use == useUnused || op.use == useReadOnly {
 				if unusedGiven {
-					op.use = useNormal // at most one unused open per round (attribution of nonce-less handler runs)
+					op.use = useNormal // at most one open per round that sends no nonce (attribution of nonce-less handler runs)
 				}
 				unusedGiven = true
 			}
@@ -417,14 +427,21 @@ func (w *world) handler(in *inst) network.StreamHandler {
 		rel := w.release
 		s.SetReadDeadline(time.Now().Add(30 * time.Second))
 		buf := make([]byte, nonceLen)
+		tag := ""
 		if _, err := io.ReadFull(s, buf); err != nil {
 			iv.anon = true
 			iv.endErr = "nonce: " + short(err)
-			s.Reset()
-			return
+			if err != io.EOF {
+				s.Reset()
+				return
+			}
+			// clean EOF before any byte: a read-only client (or a stream ended without I/O); answer anyway
+			tag = "EOF"
+		} else {
+			iv.nonce = string(buf)
+			tag = iv.nonce
 		}
-		iv.nonce = string(buf)
-		if _, err := s.Write([]byte(fmt.Sprintf("%d|%s|%s\n", in.id, s.Protocol(), iv.nonce))); err != nil {
+		if _, err := s.Write([]byte(fmt.Sprintf("%d|%s|%s\n", in.id, s.Protocol(), tag))); err != nil {
 			iv.endErr = "reply: " + short(err)
 			s.Reset()
 			return
@@ -578,6 +595,12 @@ func (w *world) open(op *openRec, rel <-chan struct{}, reached func()) {
 		_, werr = s.Write([]byte(op.nonce))
 		r := simrt.Recv("c07.open.reader", (<-chan rd)(rc))
 		op.reply, rerr = r.line, r.err
+	} else if op.plan.use == useReadOnly {
+		if err := s.CloseWrite(); err != nil {
+			werr = fmt.Errorf("CloseWrite: %w", err)
+		} else {
+			op.reply, rerr = readLine(s)
+		}
 	} else {
 		_, werr = s.Write([]byte(op.nonce))
 		if werr == nil && op.plan.use == useCloseWrite {
@@ -618,6 +641,9 @@ func protoStats(rm network.ResourceManager) map[protocol.ID]network.ScopeStat {
 // auditHeld compares, at a quiescent instant, the protocol scopes of both real managers with the
 // streams the harness holds open.
 func (w *world) auditHeld(r int) {
+	if w.p.nullRcmgr {
+		return
+	}
 	expA, expB := map[protocol.ID]int{}, map[protocol.ID]int{}
 	for _, op := range w.opens {
 		if op.held {
@@ -644,6 +670,9 @@ func (w *world) auditHeld(r int) {
 }
 
 func (w *world) auditClosed(r int) {
+	if w.p.nullRcmgr {
+		return
+	}
 	stA, stB := protoStats(w.rmA), protoStats(w.rmB)
 	for _, id := range reqUniverse {
 		if got := stA[id]; got != (network.ScopeStat{}) {
@@ -668,15 +697,23 @@ func run(t *testing.T, tape *simrt.Tape) *common.Outcome {
 	}
 	o.Logf("dialer=%s listener=%s security=%s link=%d latencies=%v simultaneous-connect=%v fault=%v(round %d onB=%v n=%d)",
 		hn(p.blankA), hn(p.blankB), p.secu, p.mode, p.lat, p.simul, p.fault, p.faultRound, p.faultOnB, p.faultN)
+	if p.nullRcmgr {
+		o.Logf("both nodes use network.NullResourceManager (no scope oracles)")
+		o.Probe("null-resource-manager")
+	}
 	finished := false
 
 	res := simrt.Run(t, simrt.Config{MaxSteps: 600000, IdleLimit: 24 * time.Hour, TraceCap: 100000}, tape.S, func() {
 		n := simnet.New(tape.S, simnet.Config{Mode: p.mode, Latencies: p.lat})
 		mk := func(seed int, ip string, blank bool) (*simhost.Node, host.Host, network.ResourceManager, *simhost.RefusingRcmgr) {
-			real, err := rcmgr.NewResourceManager(rcmgr.NewFixedLimiter(rcmgr.InfiniteLimits), rcmgr.WithMetricsDisabled())
-			if err != nil {
-				o.Trouble = "rcmgr: " + err.Error()
-				return nil, nil, nil, nil
+			var real network.ResourceManager = &network.NullResourceManager{}
+			if !p.nullRcmgr {
+				var err error
+				real, err = rcmgr.NewResourceManager(rcmgr.NewFixedLimiter(rcmgr.InfiniteLimits), rcmgr.WithMetricsDisabled())
+				if err != nil {
+					o.Trouble = "rcmgr: " + err.Error()
+					return nil, nil, nil, nil
+				}
 			}
 			rw := simhost.NewRefusingRcmgr(real, "", 0)
 			nd, err := simhost.New(n, simhost.Opts{Key: simhost.DetKey(seed), IP: ip, Port: 4001, Security: p.secu, Rcmgr: rw, WithHost: !blank})
